@@ -121,6 +121,7 @@ def _run_one(args) -> dict:
 
 
 BENIGN_DIR = Path(__file__).resolve().parent.parent / "benign"
+SEEDED_DIR = Path(__file__).resolve().parent.parent / "seeded"
 
 
 def _patch_files(patch: Path) -> list[str]:
@@ -129,12 +130,13 @@ def _patch_files(patch: Path) -> list[str]:
 
 def _run_benign(args) -> dict:
     """Apply one behaviour-preserving refactoring patch to a scratch copy; the rules must stay silent."""
-    pid, modname, root, patch = args
+    pid, modname, root, patch = args[:4]
+    expect = args[4] if len(args) > 4 else "silent"
     import importlib
     import subprocess
 
     tmp = Path(tempfile.mkdtemp(prefix="sa_benign_"))
-    name = "benign:" + Path(patch).stem
+    name = ("benign:" + Path(patch).stem) if expect == "silent" else ("seeded:" + Path(patch).parent.name)
     try:
         shutil.copytree(Path(root) / "ladim", tmp / "ladim")
         docsrc = Path(root) / "doc" / "source" / "output.rst"
@@ -150,14 +152,15 @@ def _run_benign(args) -> dict:
             prog = Program(tmp)
             mod.run(prog, rep, "quick")
         except AnalysisError as e:
-            return {"id": name, "status": "mismatch", "expect": "silent", "why": f"analysis error: {e}", "fired": []}
+            return {"id": name, "status": "mismatch", "expect": expect, "why": f"analysis error: {e}", "fired": []}
         except Exception as e:  # noqa: BLE001
-            return {"id": name, "status": "mismatch", "expect": "silent", "why": f"{type(e).__name__}: {e}", "fired": []}
+            return {"id": name, "status": "mismatch", "expect": expect, "why": f"{type(e).__name__}: {e}", "fired": []}
         from .report import load_known_findings
 
         known = {e["key"] for e in load_known_findings() if e["property"] == pid and e["status"] == "open"}
         viol = [o for o in rep.obligations if o.verdict == "violation" and o.key not in known]
-        return {"id": name, "status": "ok" if not viol else "mismatch", "expect": "silent", "fired": sorted({o.rule for o in viol}), "first": (viol[0].what[:160] if viol else "")}
+        good = (not viol) if expect == "silent" else bool(viol)
+        return {"id": name, "status": "ok" if good else "mismatch", "expect": expect, "fired": sorted({o.rule for o in viol}), "first": (viol[0].what[:160] if viol else "")}
     finally:
         shutil.rmtree(tmp, ignore_errors=True)
 
@@ -177,6 +180,19 @@ def run_audit(pid: str, mod, prog: Program, rep: Report) -> int:
         for patch in sorted(BENIGN_DIR.glob("*.diff")):
             if set(_patch_files(patch)) & consulted:
                 bjobs.append((pid, mod.__name__, str(prog.root), str(patch)))
+    # seeded property-breaking changes recorded as detected by this property: must keep firing
+    sjobs = []
+    if SEEDED_DIR.is_dir():
+        import json as _json
+
+        for meta in sorted(SEEDED_DIR.glob("*/meta.json")):
+            try:
+                det = _json.loads(meta.read_text()).get("detected_by", [])
+            except Exception:  # noqa: BLE001
+                continue
+            if any(d.split("(")[0] == pid and "analysis-error" not in d for d in det) and (meta.parent / "patch.diff").exists():
+                sjobs.append((pid, mod.__name__, str(prog.root), str(meta.parent / "patch.diff"), "fire"))
+    bjobs = bjobs + sjobs
     workers = min(16, len(jobs) + len(bjobs), os.cpu_count() or 1)
     if workers > 1:
         with ProcessPoolExecutor(max_workers=workers) as ex:
@@ -215,9 +231,10 @@ def run_audit(pid: str, mod, prog: Program, rep: Report) -> int:
             "as_expected": n_ok,
             "not_applicable": n_na,
             "mismatching": len(really_bad),
-            "breaking": sum(1 for m in muts if m.expect == "fire"),
-            "benign": sum(1 for m in muts if m.expect == "silent") + len(bjobs),
-            "benign_refactoring_patches": len(bjobs),
+            "breaking": sum(1 for m in muts if m.expect == "fire") + len(sjobs),
+            "benign": sum(1 for m in muts if m.expect == "silent") + len(bjobs) - len(sjobs),
+            "benign_refactoring_patches": len(bjobs) - len(sjobs),
+            "seeded_changes_refired": len(sjobs),
             "results": results,
         }
         ev["wall_s"] = round(ev.get("wall_s", 0) + time.time() - t0, 3)
